@@ -189,6 +189,11 @@ func toxicBody(r *rng.R, create bool) string {
 			fs = append(fs, `"stream":"UpStream"`)
 		case 4:
 			fs = append(fs, fmt.Sprintf(`"stream":%s`, pick(r, `"sideways"`, `""`, `5`, `null`)))
+		case 5:
+			// letters that only Unicode case folding takes for an s (U+017F) or a k (U+212A)
+			if r.Chance(1, 2) {
+				fs = append(fs, fmt.Sprintf(`"stream":%s`, pick(r, `"up\u017ftream"`, `"down\u017ftream"`, `"UP\u017fTREAM"`, `"upſtream"`)))
+			}
 		}
 	}
 	switch r.Intn(6) {
